@@ -162,6 +162,35 @@ def worker_main(prop: str, tier: str, seed: int, shard: int, nshards: int, out: 
     return 0
 
 
+def run_repo_tests(prop: str, work: Path) -> dict:
+    """Extra workload (DESIGN 2.4 item 2): the repository's own tests re-run with every monitor
+    installed. Returns the monitors' observations for ``prop`` and their event counters.
+    Test outcomes are not part of any verdict."""
+    out = work / "plugin"
+    env = dict(os.environ)
+    env["PYTHONPATH"] = str(ROOT) + os.pathsep + env.get("PYTHONPATH", "")
+    env.update(LWVERIF_PLUGIN_OUT=str(out), MPLBACKEND="Agg", LIGHTWORKS_VERIF="1")
+    repo = repo_path()
+    t0 = time.monotonic()
+    try:
+        p = subprocess.run([sys.executable, "-m", "pytest", "-q", "-p", "no:cacheprovider", "-p",
+                            "lwverif.pytest_plugin", "-n", "12", "--timeout=900", os.path.join(repo, "tests")],
+                           cwd=repo, env=env, capture_output=True, text=True, timeout=1800)
+        tail = p.stdout.strip().splitlines()[-1] if p.stdout.strip() else ""
+    except subprocess.TimeoutExpired:
+        tail = "timeout"
+    stats, obs = Counter(), []
+    for f in out.glob("*.json"):
+        d = json.loads(f.read_text())
+        stats.update(d["stats"])
+        obs.extend(o for o in d["observations"] if o["prop"] == prop)
+        f.unlink()
+    if out.exists():
+        out.rmdir()
+    return {"pytest_summary": tail, "wall_s": round(time.monotonic() - t0, 1), "stats": dict(stats),
+            "observations": obs}
+
+
 def load_known() -> list[dict]:
     if KNOWN.exists():
         return json.loads(KNOWN.read_text()).get("findings", [])
@@ -215,6 +244,10 @@ def main_run(prop: str, tier: str, seed: int, replay: str | None = None) -> int:
             results.append(d)
         else:
             failed.append((sh, "no output: " + (err or b"").decode(errors="replace")[-1500:]))
+    repotests = None
+    if (tier == "thorough" or os.environ.get("LWVERIF_REPOTESTS") == "1") and only is None \
+            and os.environ.get("LWVERIF_REPOTESTS") != "0":
+        repotests = run_repo_tests(prop, work)
     for f in work.glob("*"):
         f.unlink()
     work.rmdir()
@@ -231,6 +264,14 @@ def main_run(prop: str, tier: str, seed: int, replay: str | None = None) -> int:
                 samples.append(s)
         violations.extend(d["violations"])
 
+    if repotests is not None:
+        counters["repotests.monitor_events"] = sum(v for k, v in repotests["stats"].items()
+                                                    if "postcond" in k or k in ("cmp", "arg_checks", "events"))
+        for ob in repotests["observations"]:
+            violations.append({"property": prop, "what": "[repository tests under monitors] " + ob["what"],
+                               "mechanism": ob["mechanism"], "monitor": ob["monitor"], "tier": tier, "seed": seed,
+                               "shard": -1, "case_index": -1, "case": {"test": ob.get("test")},
+                               "witness": ob.get("witness")})
     # classify violations against known findings (by mechanism)
     known = [k for k in load_known() if k.get("property") == prop and k.get("status") == "known"]
     known_mech = {k["mechanism"]: k for k in known}
@@ -267,6 +308,13 @@ def main_run(prop: str, tier: str, seed: int, replay: str | None = None) -> int:
             "deciding_monitors": list(getattr(mod, "DECIDING", [])),
             "shards": nshards, "shards_failed": [list(f) for f in failed],
             "known_findings_seen": seen_known,
+            "repository_tests_under_monitors": None if repotests is None else {
+                "pytest_summary": repotests["pytest_summary"], "wall_s": repotests["wall_s"],
+                "observations_for_this_property": len(repotests["observations"]),
+                "monitor_events": {k: v for k, v in sorted(repotests["stats"].items())
+                                   if "postcond" in k or k in ("cmp", "cmp_amplitudes", "arg_checks", "events",
+                                                               "twin_distribution_reads", "twin_sampling_calls",
+                                                               "param_invariant_checks", "dist_value_checks")}},
             "verdict": ("violated" if new_viol else "inconclusive" if inconclusive else "held"),
             "inconclusive_reasons": inconclusive,
         },
